@@ -161,6 +161,15 @@ def window_case(draw, tier):
     return case
 
 
+def read_own(arr):
+    """the values of an array the library returned, as Python ints; the array is the caller's and is overwritten afterwards"""
+    arr = np.asarray(arr)
+    out = [int(x) for x in arr]
+    if arr.size and arr.flags.writeable:
+        arr[...] = 0 if arr.any() else 1
+    return out
+
+
 def body_sequence(case, ctx):
     """several reads of ONE packed object in a generated order: no read may change what a later read returns"""
     per = classify(case, ctx)
@@ -174,11 +183,11 @@ def body_sequence(case, ctx):
     for k, op in enumerate(case["ops"]):
         ctx.label("seq:" + op[0])
         if op[0] == "unpack":
-            got = lib(lambda: [int(x) for x in p.unpack()])
+            got = lib(lambda: read_own(p.unpack()))
             exp = a
         elif op[0] == "window":
             w = 1 + op[1] % per
-            got = lib(lambda: [int(x) for x in p.sliding_window(w)])
+            got = lib(lambda: read_own(p.sliding_window(w)))
             exp = window_expected(a, b, w) if n >= w else []
         elif op[0] == "int":
             i = op[1] % n
@@ -186,7 +195,7 @@ def body_sequence(case, ctx):
             exp = a[i]
         else:
             idx = [t % n for t in op[1]]
-            got = lib(lambda: [int(x) for x in p[np.array(idx, dtype=np.int64)].unpack()])
+            got = lib(lambda: read_own(p[np.array(idx, dtype=np.int64)].unpack()))
             exp = [a[t] for t in idx]
         if not got.ok or got.value != exp:
             raise Violation("sequence:step", step=k, op=op, expected=exp if not isinstance(exp, list) else exp[:40], got=got.brief(), before=case["ops"][:k])
